@@ -213,6 +213,7 @@ type got struct {
 	hcSeen   bool
 	hasBlock bool
 	block    vk.Res
+	mapLen   int // role "map": number of entries AT THE MOMENT OF THE CALL
 }
 
 type invocation struct {
@@ -311,6 +312,14 @@ func (e *env) observe(v reflect.Value, role string) got {
 		g.v = nil
 	} else {
 		g.v = v.Interface()
+	}
+	if role == "map" && v.Kind() == reflect.Map && !v.IsNil() {
+		g.mapLen = v.Len()
+		if g.mapLen == 0 {
+			// like real option-taking helpers (tag and form helpers fill in defaults), the recorder WRITES into
+			// an empty options map it was given: that map is its own, no later call may see the entry
+			v.SetMapIndex(reflect.ValueOf("c12-default"), reflect.ValueOf(true))
+		}
 	}
 	if role == "hc" && !g.zero {
 		h, ok := g.v.(hctx.HelperContext)
@@ -649,7 +658,7 @@ func (x expectation) compareSlot(c Case, w slotWant, g got, pt reflect.Type, whe
 		}
 	case "automap":
 		rv := reflect.ValueOf(g.v)
-		if g.v == nil || rv.Kind() != reflect.Map || rv.IsNil() || rv.Len() != 0 {
+		if g.v == nil || rv.Kind() != reflect.Map || rv.IsNil() || g.mapLen != 0 {
 			return fmt.Sprintf("%s: omitted options map must be supplied as an empty map, received %#v", where, g.v)
 		}
 	case "autohc":
@@ -1440,7 +1449,7 @@ func genCase(t *rapid.T, fit map[string][]string) Case {
 
 // ---- the test ---------------------------------------------------------------------------
 
-const rule = "Signatures: 0-3 fixed parameters from {string,int,float64,bool,interface{},*T,[]int}, then optionally a trailing options map (map[string]interface{} | hctx.Map) and/or a helper context (plush.HelperContext struct | hctx.HelperContext interface), or a variadic tail (...int|...string|...interface{}); results (), (T), (T,error) and (error) with nil and non-nil error, T in {string,int,interface{}}. The function is built with reflect.MakeFunc and records every invocation (received values, HasBlock(), Block()). Calls: 0-6 arguments from {string, int, float, true, false, nil, hash literal, array literal, context variables: string, int, float64, bool, *T, typed nil *T, []int, int8, named string, hctx.Map}, literal values depend on the position; each argument optionally wrapped in an order-recording identity helper; with and without a block. (E1) every parameter slot type (fixed at positions 0-2, options map, helper context, variadic element 0-2) x every argument kind x block x wrapped/unwrapped; (E2) arity matrix: 0-3 fixed x 12 tails x 12 result shapes x 0..N+1 well-typed arguments x block x wrapped/unwrapped, parameter types rotated; (E3) full product of all signatures with <= K fixed parameters x 12 tails with all calls of <= n arguments of 18 kinds x block; (R) random signature x call, arguments biased to fit. Oracle = reference binder from the statement: invoked exactly once with exactly the supplied values in order (nil => zero value, omitted trailing map => empty map, omitted helper context => HasBlock()==block given and Block() renders the block, variadic gets the rest), or not invoked and an error containing the function name (too many arguments / not assignable); first result emitted; non-nil error => errors.Is. Arguments evaluated at most once, left to right, on every path; exactly once on success. Unspecified (not asserted beyond evaluation order): fewer arguments than fixed parameters. Non-trivial = specified and (at least one argument or an auto-supplied parameter). Distinct by signature + template. SEQUENCES: one call site tgtFn(ARGS) is executed 2-3 times within one render, the callee resolving to a recording function of a different signature each time (loop: for (tgtFn) in fns; let: for (i) in idx { let tgtFn = fns[i] }; ufn: the site sits in a template-defined function called again after tgtFn is reassigned). The reference binder is applied to every execution independently against the chronological log of wrapper evaluations and invocations: everything up to the first execution that must fail (or returns a non-nil error) must have happened exactly, nothing after it; a sequence stops being judged at the first unspecified execution. (S1) all ordered pairs of signatures (<= 1 fixed parameter x 12 tails) x all calls of <= 2 arguments of a reduced kind set; (S2) ordered pairs over 0-K fixed x 12 tails x 4 result shapes with arguments well typed for either member; (SR) random 2-3 signatures. Sequence cases are non-trivial when the function types differ."
+const rule = "Signatures: 0-3 fixed parameters from {string,int,float64,bool,interface{},*T,[]int}, then optionally a trailing options map (map[string]interface{} | hctx.Map) and/or a helper context (plush.HelperContext struct | hctx.HelperContext interface), or a variadic tail (...int|...string|...interface{}); results (), (T), (T,error) and (error) with nil and non-nil error, T in {string,int,interface{}}. The function is built with reflect.MakeFunc and records every invocation (received values, HasBlock(), Block()). Calls: 0-6 arguments from {string, int, float, true, false, nil, hash literal, array literal, context variables: string, int, float64, bool, *T, typed nil *T, []int, int8, named string, hctx.Map}, literal values depend on the position; each argument optionally wrapped in an order-recording identity helper; with and without a block. (E1) every parameter slot type (fixed at positions 0-2, options map, helper context, variadic element 0-2) x every argument kind x block x wrapped/unwrapped; (E2) arity matrix: 0-3 fixed x 12 tails x 12 result shapes x 0..N+1 well-typed arguments x block x wrapped/unwrapped, parameter types rotated; (E3) full product of all signatures with <= K fixed parameters x 12 tails with all calls of <= n arguments of 18 kinds x block; (R) random signature x call, arguments biased to fit. Oracle = reference binder from the statement: invoked exactly once with exactly the supplied values in order (nil => zero value, omitted trailing map => a map that is empty at the moment of the call, and the recorder writes an entry into every empty map it receives, as option-defaulting helpers do, omitted helper context => HasBlock()==block given and Block() renders the block, variadic gets the rest), or not invoked and an error containing the function name (too many arguments / not assignable); first result emitted; non-nil error => errors.Is. Arguments evaluated at most once, left to right, on every path; exactly once on success. Unspecified (not asserted beyond evaluation order): fewer arguments than fixed parameters. Non-trivial = specified and (at least one argument or an auto-supplied parameter). Distinct by signature + template. SEQUENCES: one call site tgtFn(ARGS) is executed 2-3 times within one render, the callee resolving to a recording function of a different signature each time (loop: for (tgtFn) in fns; let: for (i) in idx { let tgtFn = fns[i] }; ufn: the site sits in a template-defined function called again after tgtFn is reassigned). The reference binder is applied to every execution independently against the chronological log of wrapper evaluations and invocations: everything up to the first execution that must fail (or returns a non-nil error) must have happened exactly, nothing after it; a sequence stops being judged at the first unspecified execution. (S1) all ordered pairs of signatures (<= 1 fixed parameter x 12 tails) x all calls of <= 2 arguments of a reduced kind set; (S2) ordered pairs over 0-K fixed x 12 tails x 4 result shapes with arguments well typed for either member; (SR) random 2-3 signatures. Sequence cases are non-trivial when the function types differ."
 
 func setup(t *testing.T) *vk.Run {
 	r := vk.Start(t, "C12", rule,
